@@ -176,6 +176,14 @@ def generate(rng, tier):
             cases.append("C07 buf %s %s" % (hx(body), rtok([r])))
         else:
             cases.append("C07 fileb %s 0 %s" % (hx(body), rtok([r])))
+    # a response that is not 200 OK is never made partial; units other than bytes select nothing
+    for L in (0, 1, 5):
+        body = body_of(L, 7)
+        for r in [x for x in single_ranges(L, 1) if x != (None, None)]:
+            for status in (201, 203, 404, 500):
+                cases.append("C07 bufs %d %s %s" % (status, hx(body), rtok([r])))
+            for units in ("lines", "chars", "BYTES"):
+                cases.append("C07 bufu %s %s %s" % (units, hx(body), rtok([r])))
     # end-to-end: Range header parsed by the library's own parser, through an Application
     hdrs = ["bytes=0-0", "bytes=2-4", "bytes=-3", "bytes=5-", "bytes=0-1,4-5", "bytes=9-2", "bytes=9-2,1-1",
             "bytes=", "bytes=-", "bytes=--", "bytes=1-2-3", "lines=1-2", "bytes=1-2=3", "nothing",
@@ -201,6 +209,8 @@ def to_model(case):
     t = case.split()
     if t[1] == "json":
         return ["C07 buf %s %s" % (t[2], t[3])]
+    if t[1] in ("bufs", "bufu"):
+        return []          # judged by the oracle only
     if t[1] in ("fileb", "filer"):
         return ["C07 file %s %s 1 1 %s" % (t[2], t[3], t[4])]
     if t[1] == "filep":
@@ -315,6 +325,17 @@ def observe_full(case):
         it = get_app()(env, lambda s, h: calls.append((s, h)))
         out = b"".join(it)
         return calls, out, body, None
+    if t[1] in ("bufs", "bufu"):
+        from poorwsgi.response import Response
+        rep, ranges = unhx(t[3]), parse_rtok(t[4])
+        if t[1] == "bufs":
+            res = Response(rep, status_code=int(t[2]))
+            res.make_partial(ranges)
+        else:
+            res = Response(rep)
+            res.make_partial(ranges, t[2])
+        calls, out = run_response(res)
+        return calls, out, rep, ranges
     res, rep, ranges = build(case)
     res.make_partial(ranges)
     calls, out = run_response(res)
@@ -366,6 +387,17 @@ def oracle(case):
     hd = {k.lower(): v for k, v in headers}
     want = rfc_window(L, ranges)
     bad = None
+    if t[1] in ("bufs", "bufu"):
+        # RFC 9110 14.2: a range applies to a 200 response and to units the server supports, else it is ignored
+        want_code = int(t[2]) if t[1] == "bufs" else 200
+        if code != want_code or out != rep or "content-range" in hd:
+            bad = "the range must be ignored (%s): expected %d with the complete body" % (
+                "status %s" % t[2] if t[1] == "bufs" else "units %s" % t[2], want_code)
+        if "content-length" in hd and hd["content-length"] != str(len(out)):
+            bad = bad or "Content-Length differs from bytes sent"
+        if bad:
+            return [Violation("range:" + t[1], case, bad, observed="%s %s len=%d" % (status, hd.get("content-range"), len(out)))]
+        return []
     if want is None:
         if code != 200 or out != rep:
             bad = "no range: expected 200 with the complete body"
